@@ -459,6 +459,8 @@ class Not:
 
 class XNor(Any):
     def __init__(self, *propositions, variable=None):
+        # the members as given are kept (sorted, ids as variables): the two halves hold them in negated form only
+        self.members = AtLeast(value=1, propositions=propositions).propositions
         Any.__init__(self, AtLeast(value=1, propositions=propositions).negate(), AtMost(value=1, propositions=propositions).negate(),
                      variable=variable)
 
@@ -468,7 +470,7 @@ class XNor(Any):
 
     def to_json(self):
         d = {'type': self.__class__.__name__,
-             'propositions': [p.to_json() for p in self.propositions[0].negate().propositions] if len(self.propositions) > 0 else []}
+             'propositions': [p.to_json() for p in self.members]}
         if not self.generated_id:
             d['id'] = self.id
         return d
